@@ -629,6 +629,25 @@ func ruleFormatterEdits(c *Ctx) {
 					markDescs[d] = true
 					if rewriteDescs[d] {
 						mapOrigins(cg, mu.Map, 0, marked)
+						// every posting line is exempt from trimming, also one the parser reported an error on (it is
+						// not rewritten, and its trailing blanks may be part of what the parser did not understand)
+						onErr := false
+						for _, cc := range (&editInst{ctx: []*ssa.BasicBlock{b}}).conds(cg) {
+							lk, ok := setMembership(cc.Cond)
+							if !ok {
+								continue
+							}
+							or := map[string]bool{}
+							mapOrigins(cg, lk.X, 0, or)
+							for o := range or {
+								if strings.HasPrefix(o, "field:") && errorLinesField(c, strings.TrimPrefix(o, "field:")) {
+									onErr = true
+								}
+							}
+						}
+						c.check(!onErr, "T13", funcName(f), "posting lines with a syntax error stay exempt from trimming", mu.Pos(),
+							"the line of a posting enters the set of lines the trim pass skips whether or not the parser reported an error on it",
+							"a posting line enters the set of lines skipped by the trailing-blank pass only when the parser reported no error on it: a damaged posting line is neither rewritten nor exempt, so its trailing blanks - possibly the very text the parser rejected (a tab after the amount) - are deleted, the error disappears and the transaction changes")
 					}
 				}
 			}
